@@ -531,5 +531,66 @@ Proof.
     + change (zlen [set_bit_in b (n mod 8) v]) with 1. unfold obj_reg, obj_bytes. rewrite Ek. cbn [r_size]. rewrite TS, PW. lia.
     + intros q Hq. change (zlen [set_bit_in b (n mod 8) v]) with 1.
       pose proof (struct_slots_after_data (bm_data (w_dst (st_w st))) p q Ek (conj Hd (conj Hm Hp')) Hq). lia.
-  - admit_rest.
-Abort.
+  - (* SetPtr *)
+    destruct (hget st h) as [l p] eqn:EH. destruct (hget st hs) as [ls q] eqn:EQ. cbn [sub_op] in Hop.
+    destruct (is_src l) eqn:EL; [discriminate|].
+    unfold pset. destruct (struct_set_ptr (e_fuel e) (st_w st) (as_struct p) i ls q) as [w1| |] eqn:ES; try discriminate.
+    intros E Hns. injection E as <- _. cbn [st_w] in Hns.
+    unfold struct_set_ptr in ES.
+    destruct (negb (p_valid (as_struct p)) || (i >=? PointerCount (p_size (as_struct p)))) eqn:EE; [discriminate|].
+    assert (Hval : p_valid (as_struct p) = true) by (destruct (p_valid (as_struct p)); auto; discriminate).
+    assert (Eas : as_struct p = p /\ p_kind p = KStruct).
+    { unfold as_struct, is_struct in *. destruct (p_valid p && _) eqn:EE2; [|discriminate Hval].
+      split; [reflexivity|]. destruct (p_kind p); auto; rewrite Bool.andb_false_r in EE2; discriminate. }
+    destruct Eas as [Eas Ek]. rewrite Eas in *.
+    assert (HP : p = snd (hget st h)) by (rewrite EH; reflexivity).
+    destruct (hget_obj st pads h S ltac:(rewrite <- HP; exact Hval)) as (Hin & _ & _). rewrite <- HP in Hin.
+    destruct (hi_good _ _ _ H p Hin) as [_ G].
+    assert (Hq0 : In (p_seg p, pointerAddress p i) ((0, 0) :: flat_map slots (objs_of st))).
+    { right. apply in_flat_map. exists p. split; [exact Hin|].
+      apply (struct_slot_in (bm_data (w_dst (st_w st)))); auto; [|lia].
+      rewrite seg_len_bm. apply (hi_small _ _ _ H). }
+    (* the source handle: null, or a table object of this message *)
+    assert (HQ : q = snd (hget st hs)) by (rewrite EQ; reflexivity).
+    assert (Hsrc : p_valid q = false \/ In q (objs_of st) /\ p_member q = false).
+    { destruct (p_valid q) eqn:EVq; [right|left; reflexivity].
+      destruct (hget_obj st pads hs S ltac:(rewrite <- HQ; exact EVq)) as (X1 & X2 & _). rewrite <- HQ in *. auto. }
+    assert (ES' : write_ptr (e_fuel e) true (st_w st) (p_seg p) (pointerAddress p i) InDst q false = Ok w1).
+    { destruct (p_valid q) eqn:EVq.
+      - destruct (hget_obj st pads hs S ltac:(rewrite <- HQ; exact EVq)) as (_ & _ & X3). rewrite EQ in X3. cbn in X3. subst ls. exact ES.
+      - rewrite <- (write_ptr_invalid_loc _ _ _ _ _ ls) by exact EVq. exact ES. }
+    destruct (e_fuel e) as [|f]; [discriminate ES'|].
+    destruct (write_ptr_hinv f (st_w st) (objs_of st) pads (p_seg p, pointerAddress p i) q w1 H Hq0 Hsrc ES' Hns) as [pads' H'].
+    exists (pads ++ pads'). split; [exact H'|exact P].
+  - (* SetRoot *)
+    destruct (hget st hs) as [ls q] eqn:EQ.
+    unfold pset. destruct (set_root (e_fuel e) (st_w st) ls q) as [w1| |] eqn:ES; try discriminate.
+    intros E Hns. injection E as <- _. cbn [st_w] in Hns.
+    unfold set_root, set_root_gen in ES.
+    destruct (bm_segs (w_dst (st_w st))) as [|s0 r0] eqn:EB; [discriminate|].
+    destruct (negb _); [discriminate|].
+    assert (Hq0 : In (0, 0) ((0, 0) :: flat_map slots (objs_of st))) by (left; reflexivity).
+    assert (HQ : q = snd (hget st hs)) by (rewrite EQ; reflexivity).
+    assert (Hsrc : p_valid q = false \/ In q (objs_of st) /\ p_member q = false).
+    { destruct (p_valid q) eqn:EVq; [right|left; reflexivity].
+      destruct (hget_obj st pads hs S ltac:(rewrite <- HQ; exact EVq)) as (X1 & X2 & _). rewrite <- HQ in *. auto. }
+    assert (ES' : write_ptr (e_fuel e) true (st_w st) 0 0 InDst q false = Ok w1).
+    { destruct (p_valid q) eqn:EVq.
+      - destruct (hget_obj st pads hs S ltac:(rewrite <- HQ; exact EVq)) as (_ & _ & X3). rewrite EQ in X3. cbn in X3. subst ls. exact ES.
+      - rewrite <- (write_ptr_invalid_loc _ _ _ _ _ ls) by exact EVq. exact ES. }
+    destruct (e_fuel e) as [|f]; [discriminate ES'|].
+    destruct (write_ptr_hinv f (st_w st) (objs_of st) pads (0, 0) q w1 H Hq0 Hsrc ES' Hns) as [pads' H'].
+    exists (pads ++ pads'). split; [exact H'|exact P].
+  - (* read-only accessors *)
+    cbn [sub_op] in Hop.
+    set (l1 := match op_handle o with Some h => fst (hget st h) | None => l end).
+    destruct (step (cfg_of e l1) all_fixes (w_segs (st_w st) l1) (mkRS (map snd (st_h st)) (w_rl (st_w st) l1)) o) as [rs' v0] eqn:EST.
+    intros E Hns. injection E as <- _. exists pads.
+    rewrite (ro_step_handles _ _ _ _ _ _ _ Hop EST). rewrite skipn_all2 by (rewrite map_length; lia). cbn [map]. rewrite app_nil_r.
+    destruct (w_set_rl_dst (st_w st) l1 (rs_rl rs')) as (T1 & T2 & _).
+    apply sinv_same_segs; auto.
+  - (* round trip *)
+    destruct (root _ _ _) as [r rl]. intros E _. injection E as <- _. exists pads. exact S.
+  - (* dump *)
+    destruct l; intros E _; injection E as <- _; exists pads; exact S.
+Qed.
